@@ -131,7 +131,7 @@ NvmModule *nvm_deserialize(const uint8_t *data, uint32_t size)
 __CPROVER_requires(size <= VERIF_MAX_SIZE)
 __CPROVER_requires(VERIF_FRESH(data, size))
 __CPROVER_requires(KIND_PRE(data, size))
-__CPROVER_requires(__verif_g.seq == 0 && __verif_g.crc_seq == 0 && __verif_g.module_new_seq == 0 && __verif_g.exited == 0 && __verif_g.partial == 0)
+__CPROVER_requires(__verif_g.seq == 0 && __verif_g.crc_seq == 0 && __verif_g.module_new_seq == 0 && __verif_g.exited == 0 && __verif_g.partial == 0 && __verif_g.unconsumed == 0)
 __CPROVER_requires(__verif_j < 16)
 __CPROVER_assigns(__verif_g)
 /* C12.gate: a module is returned only for a well-formed header whose stored checksum equals the
@@ -150,6 +150,8 @@ __CPROVER_ensures(__CPROVER_return_value == NULL ==>
 __CPROVER_ensures((__CPROVER_return_value != NULL && __verif_j < LE32(data + 16)) ==> DIR_ENTRY_OK(data, size, __verif_j))
 /* C12.whole: loading is all-or-nothing - an accepted file had every known section consumed to its very end */
 __CPROVER_ensures(__CPROVER_return_value != NULL ==> __verif_g.partial == 0)
+/* C10.load.complete: an entry loop never stops while a complete fixed-size entry (or string length word) is left */
+__CPROVER_ensures(__verif_g.unconsumed == 0)
 __CPROVER_ensures(__verif_g.exited == 0);
 
 #endif /* NVM_VIEW_LOADER */
